@@ -23,6 +23,7 @@ type Term struct {
 	Args []*Term
 	Val  ssa.Value
 	Typ  types.Type
+	Env  *Env // alloc / closure terms: the environment they were created in
 	str  string
 }
 
@@ -256,7 +257,7 @@ func (tb *TB) val(v ssa.Value, e *Env) *Term {
 	case *ssa.Builtin:
 		return mk("builtin", v.Name())
 	case *ssa.Alloc:
-		return &Term{Op: "alloc", Sym: valID(v) + "@" + e.Key(), Val: v, Typ: v.Type()}
+		return &Term{Op: "alloc", Sym: valID(v) + "@" + e.Key(), Val: v, Typ: v.Type(), Env: e}
 	case *ssa.Phi:
 		return tb.phi(v, e)
 	case *ssa.BinOp:
@@ -328,7 +329,9 @@ func (tb *TB) val(v ssa.Value, e *Env) *Term {
 		for _, x := range v.Bindings {
 			b = append(b, tb.Val(x, e))
 		}
-		return mk("closure", FuncName(v.Fn.(*ssa.Function)), b...)
+		ct := mk("closure", FuncName(v.Fn.(*ssa.Function)), b...)
+		ct.Env = e
+		return ct
 	case *ssa.TypeAssert:
 		return mk("typeassert", types.TypeString(v.AssertedType, relQual), tb.Val(v.X, e))
 	case *ssa.Range:
@@ -801,6 +804,9 @@ func pathHasPrefix(p, prefix []string) bool {
 
 // cellContent: the join of everything that may be stored at path of alloc a.
 func (tb *TB) cellContent(a *ssa.Alloc, at *Term, path []string, e *Env) *Term {
+	if at != nil && at.Op == "alloc" {
+		e = at.Env // values stored into the cell are evaluated in the environment that created it
+	}
 	ci := tb.cell(a)
 	var alts []*Term
 	partial := false
@@ -978,4 +984,34 @@ func shortHash(s string) string {
 		h *= 16777619
 	}
 	return fmt.Sprintf("%06x", h&0xffffff)
+}
+
+// Expand replaces a root call of a module function (static callee) by the callee's result term,
+// repeatedly (depth-bounded): call(f; a) -> result of f with parameters bound to a.
+func (tb *TB) Expand(t *Term, depth int) *Term {
+	for i := 0; i < depth; i++ {
+		idx := 0
+		ct := t
+		if t.Op == "extract" {
+			fmt.Sscanf(t.Sym, "%d", &idx)
+			ct = t.Args[0]
+		}
+		if ct.Op != "call" {
+			return t
+		}
+		c, ok := ct.Val.(*ssa.Call)
+		if !ok {
+			return t
+		}
+		f := c.Call.StaticCallee()
+		if f == nil || !tb.W.InModule(f) || f.Blocks == nil {
+			return t
+		}
+		res := tb.Results(f, ct.Args, nil, i+1)
+		if idx >= len(res) {
+			return t
+		}
+		t = res[idx]
+	}
+	return t
 }
